@@ -12,7 +12,9 @@ ENTRY = dict(
         "`C04.prefix_determinism` (a non-EOF outcome is decided by the consumed bytes; later bytes untouched). Tie: generated frame sequences "
         "(foreign frames with checksum byte 0x68, delimiter-salted payloads) through the real FrameReader on a real StreamReader under 5-6 "
         "chunkings, compared with the statement-derived expectation and with the model."),
-    level_note="Byte semantics proved; independence from chunking/arrival timing proved for the resumable reader machine given the buffer contract of StreamReader.read(1)/readexactly(n) (that contract is trusted and exercised at every suspension).",
+    level_note="Byte semantics proved; independence from chunking/arrival timing proved for the resumable reader machine given the buffer contract of StreamReader.read(1)/readexactly(n) (that contract is trusted and exercised at every suspension). "
+               "The resumable machine is hand-written: TieChunks.runScan_is_read1 / runHeader_is_readexactly / runBody_is_readexactly / resume_blocked_is_wait show that its three phases use exactly those buffer primitives "
+               "and suspend exactly in their waits; the TRANSLATED FrameReader.read is run on the concatenation only (translated_read_chunked), its suspended form is tied to the machine by the harness's observation at every suspension, not by a theorem.",
     clauses={
         "every frame sequence classified once and in order": "theorem (C04.stream, C04.delivered_exactly)",
         "skipped/rejected frames never desync": "theorem (C04.one_frame consumes exactly the frame)",
